@@ -41,12 +41,31 @@ impl FromStr for Value {
     type Err = Error;
 
     fn from_str(source: &str) -> Result<Self, Self::Err> {
-        let cst = Parser::parse(source, &mut Vec::new());
-
-        let value = parse_cst(&cst, source)?;
-
-        Ok(value)
+        parse_source(source)
     }
+}
+
+/// Parses one Json source into its shape.
+///
+/// The parser recovers from syntax errors (a missing `]`, `}`, `:` or value, a trailing
+/// comma, an invalid escape, a raw control character, nesting deeper than 256) and only
+/// reports them as diagnostics, so a syntax tree that converts is not enough: a source for
+/// which lexer or parser reported any diagnostic is not a Json document and is rejected
+/// with the range of the first diagnostic.
+fn parse_source(source: &str) -> Result<Value, Error> {
+    let mut diags = Vec::new();
+    let cst = Parser::parse(source, &mut diags);
+    let value = parse_cst(&cst, source)?;
+    if let Some(span) = diags
+        .first()
+        .and_then(|diag| diag.labels.first())
+        .map(|label| label.range.clone())
+    {
+        let value = source[span.clone()].to_string();
+        return Err(Error::InvalidJson { value, span });
+    }
+
+    Ok(value)
 }
 
 impl Value {
@@ -56,11 +75,9 @@ impl Value {
     ///
     /// Will return `Err` if failed to parse Json or if shapes don't align.
     pub fn from_sources(sources: &[String]) -> Result<Self, Error> {
-        let mut diags = Vec::new();
         let mut values = Vec::new();
         for source in sources {
-            let cst = Parser::parse(source, &mut diags);
-            values.push(parse_cst(&cst, source)?);
+            values.push(parse_source(source)?);
         }
 
         merge(&values)
